@@ -60,6 +60,7 @@ CONSTANTS Clients,     \* set of strings
           MaxReq,      \* RequestAndRecv calls per client
           JunkKinds,   \* classes of queries "x" may send
           MaxJunk, MaxDup, MaxDrop, MaxClose,   \* budgets
+          Faults,      \* which network faults are explored: subset of {"DropQ", "DupQ", "ReplayQ", "DropR", "DupR"}
           StaleMode,   \* "fail" | "skip"
           KeyCheck,    \* TRUE; FALSE = broken instance
           Timeout      \* FALSE | TRUE
@@ -221,12 +222,14 @@ Send(h) ==
 
 \* ------------------------------- network ---------------------------------
 DropQ(d) ==
+  /\ "DropQ" \in Faults
   /\ BagIn(d, qnet) /\ ndrop < MaxDrop
   /\ ndrop' = ndrop + 1 /\ qnet' = qnet (-) One(d)
   /\ obs' = [a |-> "DropQ", src |-> d.src, kind |-> d.kind, key |-> d.key]
   /\ UNCHANGED <<hs, rnet, cq, cpc, cn, cres, jk, ncalls, ndeliv, nresp, ndup, nclose>>
 
 DupQ(d) ==
+  /\ "DupQ" \in Faults
   /\ BagIn(d, qnet) /\ ndup < MaxDup
   /\ ndup' = ndup + 1
   /\ qnet' = qnet (+) One(d)
@@ -235,6 +238,7 @@ DupQ(d) ==
 
 \* "x" captured a client's query and sends a copy from its own address
 ReplayQ(d) ==
+  /\ "ReplayQ" \in Faults
   /\ BagIn(d, qnet) /\ d.src \in Clients /\ ndup < MaxDup
   /\ ndup' = ndup + 1
   /\ qnet' = qnet (+) One([d EXCEPT !.src = X])
@@ -250,6 +254,7 @@ DeliverR(d) ==
   /\ UNCHANGED <<qnet, hs, cpc, cn, cres, jk, ncalls, ndeliv, nresp, ndup, ndrop, nclose>>
 
 DropR(d) ==
+  /\ "DropR" \in Faults
   /\ BagIn(d, rnet) /\ ndrop < MaxDrop
   /\ ndrop' = ndrop + 1 /\ rnet' = rnet (-) One(d)
   /\ obs' = [a |-> "DropR", dst |-> d.dst, rc |-> d.rc, key |-> d.key]
@@ -257,6 +262,7 @@ DropR(d) ==
 
 \* duplicate a response, possibly re-addressed to another client
 DupR(d, c) ==
+  /\ "DupR" \in Faults
   /\ BagIn(d, rnet) /\ c \in Clients /\ ndup < MaxDup
   /\ ndup' = ndup + 1
   /\ rnet' = rnet (+) One([d EXCEPT !.dst = c])
